@@ -35,6 +35,9 @@ import (
 	"strings"
 )
 
+// siteEndRe: the last word of a call-site name (`...#N`).
+var siteEndRe = regexp.MustCompile(`#\d+$`)
+
 type Param struct {
 	Name string
 	Type string
@@ -105,6 +108,7 @@ type FuncContract struct {
 	Pure       []string
 	Havoc      []string
 	NoOverflow string
+	NoContent  []string // element types whose slice contents are not tracked on append ("[]string")
 	Trusted    string
 	AllowPanic bool
 	Notes      []string
@@ -511,9 +515,15 @@ func parseContractFile(path string, pc *PkgContracts) error {
 				if cur.CallSites == nil {
 					cur.CallSites = map[string]*CallSiteSpec{}
 				}
-				if (f[0] == "invoke" || f[0] == "dynamic") && len(f) >= 4 {
-					// two-word site names: `invoke T.M#1`, `dynamic FuncType#1`
-					f = append([]string{f[0] + " " + f[1]}, f[2:]...)
+				if f[0] == "invoke" || f[0] == "dynamic" {
+					// site names with spaces: `invoke T.M#1`, `dynamic FuncType#1`, `dynamic func([]uint8) error#1`:
+					// the site extends to the first word ending in #N
+					for k := 1; k < len(f)-1; k++ {
+						if siteEndRe.MatchString(f[k]) {
+							f = append([]string{strings.Join(f[:k+1], " ")}, f[k+1:]...)
+							break
+						}
+					}
 				}
 				cs := cur.CallSites[f[0]]
 				if cs == nil {
@@ -570,8 +580,13 @@ func parseContractFile(path string, pc *PkgContracts) error {
 					return fail(c, "assert needs `LABEL after CALLEE#N: EXPR`")
 				}
 				sf := f[2]
-				if (sf == "invoke" || sf == "dynamic") && len(f) >= 5 {
-					sf = f[2] + " " + f[3]
+				if sf == "invoke" || sf == "dynamic" {
+					for k := 3; k < len(f); k++ {
+						if siteEndRe.MatchString(strings.TrimSuffix(f[k], ":")) {
+							sf = strings.Join(f[2:k+1], " ")
+							break
+						}
+					}
 				}
 				site := strings.TrimSuffix(sf, ":")
 				i := strings.Index(c.text, sf)
@@ -681,6 +696,12 @@ func parseContractFile(path string, pc *PkgContracts) error {
 					cur.NoOverflow = rest
 					if cur.NoOverflow == "" {
 						cur.NoOverflow = "assumed"
+					}
+				case "no-content":
+					// assume no-content []T : elements appended to slices of T are not tracked (lengths are); sound
+					// (the contents become arbitrary), used where only the length of a slice matters
+					for _, m := range strings.Split(rest, ",") {
+						cur.NoContent = append(cur.NoContent, strings.TrimSpace(m))
 					}
 				default:
 					return fail(c, "unknown assume %q", f[0])
